@@ -33,6 +33,8 @@ def gen_case(rng: random.Random, tier: str, bias: str = ''):
     if bias == 'markers':
         n = max(n, 2)
     rounds = rng.choice([1, 2, 2, 3])
+    if bias == 'small':
+        m, n, rounds = min(m, 2), min(n, 2), min(rounds, 2)
     cap = rng.choice([0, 0, 1, 2, 3, 5])
     kmax = 3 if not big else 6
     dup = rng.random() < 0.25          # duplicate values: the statement is about multisets
